@@ -152,7 +152,7 @@ def verify_functions(quals, timeout_ms, procs=None):
         unk = set(r['name'] for r in o.get('results', []) if r['status'] == 'unknown')
         if not unk or o.get('cached') or len(unk) > 4 or any(r['status'] == 'sat' for r in o.get('results', [])):
             continue
-        redo = RUN.verify_case(repo_root(), t[0], t[1], timeout_ms=60000, only_names=unk, retry=False)
+        redo = RUN.verify_case(repo_root(), t[0], t[1], timeout_ms=20000, only_names=unk, retry=True)     # 20 s, then a 120 s portfolio
         # obligation names are not unique (one per path): results are matched by (name, occurrence)
         by_name = {}
         for r in redo.get('results', []):
